@@ -548,6 +548,14 @@ impl MetadataClient for LocalMetadataClient {
         }
         Ok(false)
     }
+
+    async fn pending_split_targets(&self) -> Result<Vec<String>> {
+        Ok(self
+            .split_states
+            .iter()
+            .flat_map(|entry| entry.value().new_shards.clone())
+            .collect())
+    }
 }
 
 #[cfg(test)]
